@@ -111,8 +111,16 @@ def gen_history(rnd, g, kind="", pinned=None):
     for _ in range(n):
         r = rnd.random()
         q = rnd.choice(fam)
-        if r < 0.72:
+        if r < 0.62:
             events.append({"ev": "eval", "q": q})
+        elif r < 0.72:
+            # other ways of asking for the same evaluation: a debugging context, the cache handed to the call,
+            # the query spelled as an absolute path
+            v = rnd.choice(["debug", "cache_arg", "absolute"])
+            if v == "absolute":
+                events.append({"ev": "eval", "q": q if q.startswith(("/", "-R", "res.txt", "dir/", "nokey")) else "/" + q})
+            else:
+                events.append({"ev": "eval", "q": q, "via": v})
         elif r < 0.80:
             events.append({"ev": "eval", "q": q, "input": rnd.randrange(len(E.INPUTS))})
         elif r < 0.86:
@@ -163,7 +171,7 @@ def run_history(env, kind, fam, events, scratch, viol, stats, mode):
             continue
         ref = env.reference(q, e.get("input"), e.get("extra"))
         h0 = rec.hits
-        got, st, log = env.evaluate(q, e.get("input"), e.get("extra"), cache=rec)
+        got, st, log = env.evaluate(q, e.get("input"), e.get("extra"), cache=rec, via=e.get("via", "plain"))
         if ref is None or got is None:
             continue
         stats["evaluations"] += 1
